@@ -27,8 +27,8 @@ META = {
             "one). Every entry of bookmark_table counts as a bookmark whose target must follow the renaming.",
     "note": "Trusted: TLC, the projection in harness/src/wire.rs, Renumber!Acceptable as the reading of the statement "
             "(generations are not required to be preserved; references held by unreachable objects need not be renamed). "
-            "Exhaustive only within the model bounds (<=4 objects quick, <=5 thorough); beyond that sampled. Not covered: two "
-            "live objects sharing one number, page trees that are not trees, bookmark targets unreachable from the trailer "
+            "Exhaustive only within the model bounds (<=4 objects quick, <=5 thorough); beyond that sampled. Not covered: page "
+            "trees with cycles or deeper than two levels (C12/C13), bookmark targets that exist but are unreachable from the trailer "
             "(only: still an object of the same shape, no reachable object renamed onto it), nesting beyond the parser's limit, "
             "start + count beyond u32.",
     "design_ref": "DESIGN.md section 4 C10",
@@ -122,6 +122,13 @@ def classes(before, start, bmc=()):
         c.add("dangling")
     if before["bms"]:
         c.add("bookmarks")
+    live = {(o[0], o[1]) for o in before["objects"]}
+    if any(t[0] != 0 and tuple(t) not in live for t in before["bms"]):
+        c.add("bm-dangling")
+    if len({tuple(p) for p in before["pages"]}) < len(before["pages"]):
+        c.add("dup-kids")
+    if len(set(nums)) < len(nums):
+        c.add("shared-number")
     if nums:
         if sorted(nums) != list(range(min(nums), min(nums) + len(nums))):
             c.add("sparse")
@@ -247,8 +254,9 @@ def run(tier):
     chk.rule = ("documents enumerated by TLC (MC_Renumber) and seeded random reference graphs, each with a start value; a "
                 "case is non-trivial when the document has at least 2 objects; distinct by (document, bookmarks, start)")
     chk.assumptions = [
-        "object numbers are distinct (one live generation per number, as a cross-reference table allows)",
-        "page trees are trees; bookmark targets are pages reachable from the trailer or the conventional (0,0)",
+        "two live objects may share a number (different generations): the statement quantifies over all documents",
+        "page trees are flat or two-level; a page may be listed more than once; bookmark targets are pages reachable "
+        "from the trailer, the conventional (0,0), or ids that name no object (which must still name none afterwards)",
         "generations are not required to be preserved (the statement fixes object numbers only)",
     ]
     w = workdir("c10")
@@ -267,8 +275,14 @@ def run(tier):
     for c in cases:
         model_verdicts[c["v"]] = model_verdicts.get(c["v"], 0) + 1
     chk.extra["model_verdicts_as_code_is"] = model_verdicts
-    if set(model_verdicts) != {"ok"}:
-        raise vlib.ToolError("model as the code is produced a verdict other than ok: %s" % sorted(model_verdicts))
+    # the transcription of the code as it is may only fail in the classes of the findings that are listed as
+    # still open (known_findings/C10.json); with none listed it must be acceptable everywhere
+    open_tags = {"ok"} | {sig.split(":", 1)[1] for sig in chk.known}
+    model_tags = {t for v in model_verdicts for t in v.split("+")}
+    if not model_tags <= open_tags:
+        raise vlib.ToolError("model as the code is produced verdicts outside ok + open findings: %s" % sorted(model_tags - open_tags))
+    if model_verdicts.get("ok", 0) < len(cases) * 9 // 10:
+        raise vlib.ToolError("vacuous: fewer than 90%% of the generated cases are acceptable in the model")
     require_actions(cases, MC_ACTIONS_REPAIRED)
     if not any(c["needs"] for c in cases) or not any(not c["needs"] for c in cases):
         raise vlib.ToolError("vacuous: the generated cases do not both take and skip the page-order pass")
@@ -279,8 +293,8 @@ def run(tier):
     r2 = tlc("MC_Renumber.tla", cfg2, workers=workers, timeout=3000, env={"C10_PICK": 0}, xmx="4g",
              name=os.path.splitext(cfg2)[0])
     cases2 = r2.tagged("REPLAY")
-    if quick and len(cases2) != len(cases):
-        raise vlib.ToolError("seeded run completed %d cases, as-the-code-is run %d" % (len(cases2), len(cases)))
+    if not cases2:
+        raise vlib.ToolError("seeded run completed no case")
     seeded = {}
     for c in cases2:
         for tag in c["v"].split("+"):
@@ -313,7 +327,7 @@ def run(tier):
     chk.extra["model_drift"] = chk.extra.get("model_drift", 0) + drift
     chk.extra["replayed_behaviours"] = len(cases)
     need = {"pages-out-of-id-order", "generation>0", "dangling", "bookmarks", "sparse", "start<=min", "start-inside",
-            "start>max", "nest>=48", "bm-loose", "bm-nested2"}
+            "start>max", "nest>=48", "bm-loose", "bm-nested2", "bm-dangling", "dup-kids", "shared-number"}
     if not need <= seen:
         raise vlib.ToolError("vacuous replay set: no judged case of class %s" % sorted(need - seen))
     mid = len(cases) // 2
@@ -330,7 +344,8 @@ def run(tier):
     for rec in recs:
         if "fam" in rec:
             fams[rec["fam"]] = fams.get(rec["fam"], 0) + 1
-    if len(recs) - sum(fams.values()) != n or fams.get("deep", 0) < 90 or fams.get("bookmarks", 0) < 48:
+    if len(recs) - sum(fams.values()) != n or fams.get("deep", 0) < 90 or fams.get("bookmarks", 0) < 56 \
+            or fams.get("pageorder", 0) < 42:
         raise vlib.ToolError("recorder produced %d records (%d random wanted), families %s" % (len(recs), n, fams))
     chk.extra["recorded_families"] = fams
     seen2 = set()
